@@ -55,8 +55,7 @@ import (
 	"sort"
 	"strconv"
 	"strings"
-	"sync"
-	"sync/atomic"
+	"syscall"
 	"testing"
 
 	"github.com/ARM-software/golang-utils/utils/commonerrors"
@@ -704,11 +703,29 @@ func judgeInvalid(op opID, t tree, r opResult, rootAfter map[string]bool) []verd
 // bookkeeping shared by the workers
 
 type violAgg struct {
-	count   map[string]int64 // backend -> cases
-	key     [4]int           // smallest (backend, group, tree, pattern set) seen: makes the stored replay deterministic
-	hasKey  bool
-	replay  caseDesc
-	backend string
+	Count  map[string]int64 `json:"count"` // backend -> cases
+	Key    [4]int           `json:"key"`   // smallest (backend, group, tree, pattern list) seen: makes the stored replay deterministic
+	Replay caseDesc         `json:"replay"`
+}
+
+// shardResult is what one worker process hands back to the coordinating process.
+type shardResult struct {
+	Evaluations   int64               `json:"evaluations"`
+	Nontrivial    int64               `json:"nontrivial"`
+	PerOp         [nOps]int64         `json:"per_op"`
+	PerOpNontriv  [nOps]int64         `json:"per_op_nontrivial"`
+	SkipAtDepth   [maxDepth + 1]int64 `json:"skip_at_depth"`
+	MiddleKept    int64               `json:"middle_kept"`
+	MiddleSkipped int64               `json:"middle_skipped"`
+	ErrorsValid   int64               `json:"errors_valid"`
+	InvalidEvals  int64               `json:"invalid_evals"`
+	ZipLeftArc    int64               `json:"zip_left_arc"`
+	Pairs         int64               `json:"pairs"`
+	PerOpOutcomes [nOps][]uint64      `json:"per_op_outcomes"`
+	Viols         map[string]*violAgg `json:"violations"`
+	Samples       map[string]any      `json:"samples"`
+	Errors        []string            `json:"errors"`
+	CPUSeconds    float64             `json:"cpu_s"`
 }
 
 type stats struct {
@@ -722,12 +739,12 @@ type stats struct {
 	errorsValid   int64               // operations that returned an error although every pattern compiles
 	invalidEvals  int64
 	zipLeftArc    int64 // observation: Zip left a destination archive behind after rejecting the patterns
-	outcomes      map[uint64]struct{}
+	pairs         int64
 	perOpOutcomes [nOps]map[uint64]struct{}
 }
 
 func newStats() *stats {
-	s := &stats{outcomes: map[uint64]struct{}{}}
+	s := &stats{}
 	for i := range s.perOpOutcomes {
 		s.perOpOutcomes[i] = map[uint64]struct{}{}
 	}
@@ -735,28 +752,31 @@ func newStats() *stats {
 }
 
 type checker struct {
-	rep   *ev.Reporter
-	mu    sync.Mutex
 	viols map[string]*violAgg
 	samp  map[string]any
+	errs  []string
+}
+
+func (ck *checker) engineError(format string, a ...any) {
+	if len(ck.errs) < 20 {
+		ck.errs = append(ck.errs, fmt.Sprintf(format, a...))
+	}
 }
 
 func (ck *checker) record(v verdict, cd caseDesc, key [4]int, r opResult) {
-	ck.mu.Lock()
-	defer ck.mu.Unlock()
 	a := ck.viols[v.core]
 	if a == nil {
-		a = &violAgg{count: map[string]int64{}}
+		a = &violAgg{Count: map[string]int64{}, Key: [4]int{1 << 30}}
 		ck.viols[v.core] = a
 	}
-	a.count[cd.Backend]++
-	if !a.hasKey || lessKey(key, a.key) {
-		a.hasKey, a.key = true, key
+	a.Count[cd.Backend]++
+	if lessKey(key, a.Key) {
+		a.Key = key
 		cd.Clause, cd.Entry, cd.Observed = v.clause, v.entry, sortedKeys(r.set)
 		if r.err != nil {
 			cd.Error = r.err.Error()
 		}
-		a.replay = cd
+		a.Replay = cd
 	}
 }
 
@@ -829,17 +849,17 @@ type job struct {
 
 var backends = []string{"mem", "os"}
 
-func (ck *checker) worker(id int, shm string, groups []group, jobs []job, next *atomic.Int64, st *stats) {
-	workerDir := filepath.Join(shm, fmt.Sprintf("w%d", id))
-	if err := os.MkdirAll(workerDir, 0o755); err != nil {
-		ck.rep.EngineError("cannot create %s: %v", workerDir, err)
+// runShard is the body of one worker process: it takes every n-th job.
+func runShard(shard, n int, groups []group, jobs []job) (res shardResult) {
+	ck := &checker{viols: map[string]*violAgg{}, samp: map[string]any{}}
+	st := newStats()
+	workerDir, err := os.MkdirTemp("/dev/shm", "verif-c08-")
+	if err != nil || strings.ContainsAny(workerDir, "xyz") {
+		res.Errors = []string{fmt.Sprintf("no usable directory under /dev/shm: %q %v", workerDir, err)}
 		return
 	}
-	for {
-		j := int(next.Add(1)) - 1
-		if j >= len(jobs) {
-			return
-		}
+	defer os.RemoveAll(workerDir)
+	for j := shard; j < len(jobs); j += n {
 		jb := jobs[j]
 		g := &groups[jb.group]
 		backend := backends[jb.backend]
@@ -851,6 +871,19 @@ func (ck *checker) worker(id int, shm string, groups []group, jobs []job, next *
 			}
 		}
 	}
+	res = shardResult{Evaluations: st.evaluations, Nontrivial: st.nontrivial, PerOp: st.perOp, PerOpNontriv: st.perOpNontriv, SkipAtDepth: st.skipAtDepth,
+		MiddleKept: st.middleKept, MiddleSkipped: st.middleSkipped, ErrorsValid: st.errorsValid, InvalidEvals: st.invalidEvals, ZipLeftArc: st.zipLeftArc,
+		Pairs: st.pairs, Viols: ck.viols, Samples: ck.samp, Errors: ck.errs}
+	for i := range st.perOpOutcomes {
+		for h := range st.perOpOutcomes[i] {
+			res.PerOpOutcomes[i] = append(res.PerOpOutcomes[i], h)
+		}
+	}
+	var ru syscall.Rusage
+	if syscall.Getrusage(syscall.RUSAGE_SELF, &ru) == nil {
+		res.CPUSeconds = float64(ru.Utime.Sec+ru.Stime.Sec) + float64(ru.Utime.Usec+ru.Stime.Usec)/1e6
+	}
+	return
 }
 
 // pair runs every operation for one (tree, pattern list): the non-destructive ones share one world
@@ -858,9 +891,10 @@ func (ck *checker) worker(id int, shm string, groups []group, jobs []job, next *
 func (ck *checker) pair(backend, workerDir string, g *group, t tree, ti, pi int, pats []string, key [4]int, st *stats) {
 	defer func() {
 		if p := recover(); p != nil {
-			ck.rep.EngineError("panic on backend=%s tree=%s patterns=%q: %v", backend, t, pats, p)
+			ck.engineError("panic on backend=%s tree=%s patterns=%q: %v", backend, t, pats, p)
 		}
 	}()
+	st.pairs++
 	var c classified
 	var ps *pset
 	if g.mode == "valid" {
@@ -879,9 +913,7 @@ func (ck *checker) pair(backend, workerDir string, g *group, t tree, ti, pi int,
 	account := func(op opID, r opResult, vs []verdict) {
 		st.evaluations++
 		st.perOp[op]++
-		h := outcomeHash(op, g.mode, r)
-		st.outcomes[h] = struct{}{}
-		st.perOpOutcomes[op][h] = struct{}{}
+		st.perOpOutcomes[op][outcomeHash(op, g.mode, r)] = struct{}{}
 		if g.mode == "valid" {
 			nontrivial := false
 			shallowSkip := 0
@@ -933,7 +965,7 @@ func (ck *checker) pair(backend, workerDir string, g *group, t tree, ti, pi int,
 		err = w.build(t)
 	}
 	if err != nil {
-		ck.rep.EngineError("cannot build %s on %s: %v", t, backend, err)
+		ck.engineError("cannot build %s on %s: %v", t, backend, err)
 		return
 	}
 	results := make([]opResult, 0, len(ops1))
@@ -953,7 +985,7 @@ func (ck *checker) pair(backend, workerDir string, g *group, t tree, ti, pi int,
 			// some operation of the shared world changed the source: attribute it by running this one alone
 			r2, vs2, err := runCase(backend, workerDir, g.mode, t, pats, op)
 			if err != nil {
-				ck.rep.EngineError("re-run of %s failed: %v", opNames[op], err)
+				ck.engineError("re-run of %s failed: %v", opNames[op], err)
 				continue
 			}
 			results[k], vs = r2, vs2
@@ -963,7 +995,7 @@ func (ck *checker) pair(backend, workerDir string, g *group, t tree, ti, pi int,
 	for _, op := range ops2 {
 		r, vs, err := runCase(backend, workerDir, g.mode, t, pats, op)
 		if err != nil {
-			ck.rep.EngineError("cannot build %s on %s: %v", t, backend, err)
+			ck.engineError("cannot build %s on %s: %v", t, backend, err)
 			continue
 		}
 		account(op, r, vs)
@@ -984,9 +1016,7 @@ func (ck *checker) pair(backend, workerDir string, g *group, t tree, ti, pi int,
 			}
 			desc["must_skip"], desc["must_do"], desc["unspecified"] = skip, do, mid
 		}
-		ck.mu.Lock()
 		ck.samp[fmt.Sprintf("%s/%s/%06d/%03d", g.name, backend, ti, pi)] = desc
-		ck.mu.Unlock()
 	}
 }
 
@@ -1005,23 +1035,8 @@ func (ck *checker) wantSample(g *group, ti, pi int, backend string) bool {
 }
 
 func TestC08(t *testing.T) {
-	rep := ev.NewReporter("C08", "exploration")
-	ck := &checker{rep: rep, viols: map[string]*violAgg{}, samp: map[string]any{}}
-
-	shm, err := os.MkdirTemp("/dev/shm", "verif-c08-")
-	if err != nil {
-		rep.EngineError("no directory under /dev/shm: %v", err)
-		rep.Coverage["evaluations"], rep.Coverage["distinct_nontrivial"], rep.Coverage["rule"], rep.Coverage["samples"] = 0, 0, "", []any{}
-		rep.Finish()
-		return
-	}
-	defer os.RemoveAll(shm)
-	if strings.ContainsAny(shm, "xyz") {
-		rep.EngineError("sandbox path %s contains a pattern character", shm)
-	}
-
 	if p := os.Getenv("VERIF_REPLAY"); p != "" {
-		replay(p, shm)
+		replay(p)
 		return
 	}
 
@@ -1048,6 +1063,7 @@ func TestC08(t *testing.T) {
 		specs = []groupSpec{
 			{Name: "valid/entries<=4/patterns<=3", Mode: "valid", Names: allNames, MinEntries: 0, MaxEntries: 4, MaxPatterns: 3, RootFile: true},
 			{Name: "valid/entries=5/patterns<=1", Mode: "valid", Names: allNames, MinEntries: 5, MaxEntries: 5, MaxPatterns: 1},
+			{Name: "valid/entries=5/names=x,xy,z/patterns<=3", Mode: "valid", Names: smallNames, MinEntries: 5, MaxEntries: 5, MaxPatterns: 3},
 			{Name: "valid/entries=6/names=x,xy,z/patterns<=1", Mode: "valid", Names: smallNames, MinEntries: 6, MaxEntries: 6, MaxPatterns: 1},
 			{Name: "invalid/entries<=3", Mode: "invalid", Names: allNames, MinEntries: 0, MaxEntries: 3, RootFile: true},
 		}
@@ -1102,67 +1118,92 @@ func TestC08(t *testing.T) {
 			}
 		}
 	}
-	// big trees first would be better for balance; the job list is short-chunked instead
-	nw := ev.Workers()
-	sts := make([]*stats, nw)
-	var next atomic.Int64
-	var wg sync.WaitGroup
-	for i := 0; i < nw; i++ {
-		sts[i] = newStats()
-		wg.Add(1)
-		go func(i int) {
-			defer wg.Done()
-			ck.worker(i, shm, groups, jobs, &next, sts[i])
-		}(i)
+	// ---- run: one worker process per core (GOMAXPROCS=1 each), job j goes to worker j mod n
+	results, isWorker := ev.Sharded(t, ev.Workers(), func(shard, n int) shardResult { return runShard(shard, n, groups, jobs) })
+	if isWorker {
+		return
 	}
-	wg.Wait()
+	rep := ev.NewReporter("C08", "exploration")
+	shm, err := os.MkdirTemp("/dev/shm", "verif-c08-")
+	if err != nil {
+		rep.EngineError("no directory under /dev/shm: %v", err)
+	}
+	defer os.RemoveAll(shm)
 
 	// ---- merge
-	tot := newStats()
-	for _, s := range sts {
-		tot.evaluations += s.evaluations
-		tot.nontrivial += s.nontrivial
-		tot.middleKept += s.middleKept
-		tot.middleSkipped += s.middleSkipped
-		tot.errorsValid += s.errorsValid
-		tot.invalidEvals += s.invalidEvals
-		tot.zipLeftArc += s.zipLeftArc
-		for i := range s.perOp {
-			tot.perOp[i] += s.perOp[i]
-			tot.perOpNontriv[i] += s.perOpNontriv[i]
-			for h := range s.perOpOutcomes[i] {
-				tot.perOpOutcomes[i][h] = struct{}{}
+	var tot shardResult
+	outcomes := [nOps]map[uint64]struct{}{}
+	for i := range outcomes {
+		outcomes[i] = map[uint64]struct{}{}
+	}
+	viols := map[string]*violAgg{}
+	samp := map[string]any{}
+	for _, r := range results {
+		tot.Evaluations += r.Evaluations
+		tot.Nontrivial += r.Nontrivial
+		tot.MiddleKept += r.MiddleKept
+		tot.MiddleSkipped += r.MiddleSkipped
+		tot.ErrorsValid += r.ErrorsValid
+		tot.InvalidEvals += r.InvalidEvals
+		tot.ZipLeftArc += r.ZipLeftArc
+		tot.Pairs += r.Pairs
+		tot.CPUSeconds += r.CPUSeconds
+		for i := range r.PerOp {
+			tot.PerOp[i] += r.PerOp[i]
+			tot.PerOpNontriv[i] += r.PerOpNontriv[i]
+			for _, h := range r.PerOpOutcomes[i] {
+				outcomes[i][h] = struct{}{}
 			}
 		}
-		for i := range s.skipAtDepth {
-			tot.skipAtDepth[i] += s.skipAtDepth[i]
+		for i := range r.SkipAtDepth {
+			tot.SkipAtDepth[i] += r.SkipAtDepth[i]
 		}
-		for h := range s.outcomes {
-			tot.outcomes[h] = struct{}{}
+		for _, e := range r.Errors {
+			rep.EngineError("%s", e)
 		}
+		for k, v := range r.Samples {
+			samp[k] = v
+		}
+		for core, a := range r.Viols {
+			m := viols[core]
+			if m == nil {
+				viols[core] = a
+				continue
+			}
+			for b, n := range a.Count {
+				m.Count[b] += n
+			}
+			if lessKey(a.Key, m.Key) {
+				m.Key, m.Replay = a.Key, a.Replay
+			}
+		}
+	}
+	distinctOutcomes := 0
+	for i := range outcomes {
+		distinctOutcomes += len(outcomes[i])
 	}
 
 	// ---- violations: every stored case is replayed 5 times on a fresh world before it is believed
-	cores := make([]string, 0, len(ck.viols))
-	for c := range ck.viols {
+	cores := make([]string, 0, len(viols))
+	for c := range viols {
 		cores = append(cores, c)
 	}
 	sort.Strings(cores)
 	for _, core := range cores {
-		a := ck.viols[core]
+		a := viols[core]
 		be := "both"
 		var n int64
-		for b, k := range a.count {
+		for b, k := range a.Count {
 			n += k
-			if len(a.count) == 1 {
+			if len(a.Count) == 1 {
 				be = b
 			}
 		}
 		sig := core + ":backend=" + be
-		op, _ := opByName(a.replay.Op)
+		op, _ := opByName(a.Replay.Op)
 		stable := true
 		for k := 0; k < 5; k++ {
-			_, vs, err := runCase(a.replay.Backend, filepath.Join(shm, "w0"), a.replay.Mode, a.replay.Tree, a.replay.Patterns, op)
+			_, vs, err := runCase(a.Replay.Backend, shm, a.Replay.Mode, a.Replay.Tree, a.Replay.Patterns, op)
 			found := false
 			for _, v := range vs {
 				if v.core == core {
@@ -1174,29 +1215,29 @@ func TestC08(t *testing.T) {
 			}
 		}
 		if !stable {
-			rep.EngineError("case for %s did not reproduce 5 times out of 5: %+v", sig, a.replay)
+			rep.EngineError("case for %s did not reproduce 5 times out of 5: %+v", sig, a.Replay)
 			continue
 		}
-		a.replay.Note = "VERIF_REPLAY re-runs this case: the operation is applied to <base>/r00t holding the tree, with the patterns"
-		rep.ViolationN(sig, a.replay, n)
+		a.Replay.Note = "VERIF_REPLAY re-runs this case: the operation is applied to <base>/r00t holding the tree, with the patterns"
+		rep.ViolationN(sig, a.Replay, n)
 	}
 
 	// ---- evidence
 	perOp := map[string]any{}
 	for i := 0; i < int(nOps); i++ {
-		perOp[opNames[i]] = map[string]any{"evaluations": tot.perOp[i], "nontrivial": tot.perOpNontriv[i], "distinct_outcomes": len(tot.perOpOutcomes[i])}
+		perOp[opNames[i]] = map[string]any{"evaluations": tot.PerOp[i], "nontrivial": tot.PerOpNontriv[i], "distinct_outcomes": len(outcomes[i])}
 	}
-	keys := make([]string, 0, len(ck.samp))
-	for k := range ck.samp {
+	keys := make([]string, 0, len(samp))
+	for k := range samp {
 		keys = append(keys, k)
 	}
 	sort.Strings(keys)
 	samples := []any{}
 	for _, k := range keys {
-		samples = append(samples, ck.samp[k])
+		samples = append(samples, samp[k])
 	}
-	rep.Coverage["evaluations"] = tot.evaluations
-	rep.Coverage["distinct_nontrivial"] = tot.nontrivial
+	rep.Coverage["evaluations"] = tot.Evaluations
+	rep.Coverage["distinct_nontrivial"] = tot.Nontrivial
 	rep.Coverage["rule"] = "a case is one (backend, tree, pattern list, operation), each enumerated exactly once; it is non-trivial when, with valid patterns, some entry in the operation's domain has a path component that contains a match of some pattern (the filter had to exclude it, or it lies in the unspecified middle), and, with an invalid pattern list, always (the case reaches the validation of the patterns)"
 	rep.Coverage["exhaustive"] = exhaustive
 	rep.Coverage["bound"] = map[string]any{"depth_max": maxDepth, "groups": specs, "operations": opNames[:], "applied_to": "the root of the tree"}
@@ -1205,14 +1246,16 @@ func TestC08(t *testing.T) {
 	rep.Coverage["patterns_invalid"] = invalidPatterns
 	rep.Coverage["backends"] = backends
 	rep.Coverage["per_operation"] = perOp
-	rep.Coverage["distinct_outcomes"] = len(tot.outcomes)
-	rep.Coverage["cases_by_depth_of_shallowest_must_skip_entry"] = map[string]int64{"none": tot.skipAtDepth[0], "1": tot.skipAtDepth[1], "2": tot.skipAtDepth[2], "3": tot.skipAtDepth[3]}
+	rep.Coverage["distinct_outcomes"] = distinctOutcomes
+	rep.Coverage["tree_x_pattern_list_x_backend_combinations"] = tot.Pairs
+	rep.Coverage["cpu_seconds_of_the_workers"] = int64(tot.CPUSeconds)
+	rep.Coverage["cases_by_depth_of_shallowest_must_skip_entry"] = map[string]int64{"none": tot.SkipAtDepth[0], "1": tot.SkipAtDepth[1], "2": tot.SkipAtDepth[2], "3": tot.SkipAtDepth[3]}
 	rep.Coverage["observations"] = map[string]any{
-		"unspecified_middle_entries_processed":                     tot.middleKept,
-		"unspecified_middle_entries_left_alone":                    tot.middleSkipped,
-		"operations_returning_an_error_with_valid_patterns":        tot.errorsValid,
-		"invalid_list_cases":                                       tot.invalidEvals,
-		"zip_left_an_archive_behind_after_rejecting_the_patterns": tot.zipLeftArc,
+		"unspecified_middle_entries_processed":                    tot.MiddleKept,
+		"unspecified_middle_entries_left_alone":                   tot.MiddleSkipped,
+		"operations_returning_an_error_with_valid_patterns":       tot.ErrorsValid,
+		"invalid_list_cases":                                      tot.InvalidEvals,
+		"zip_left_an_archive_behind_after_rejecting_the_patterns": tot.ZipLeftArc,
 	}
 	rep.Coverage["samples"] = samples
 	rep.Coverage["explanation"] = "outcome = (operation, error kind, set of relative paths reported / copied / archived / surviving); destinations are read back with os.ReadDir (OS) or Lstat+Readdirnames (memory), archives with archive/zip"
@@ -1225,7 +1268,14 @@ func TestC08(t *testing.T) {
 }
 
 // replay re-runs one stored case (VERIF_REPLAY=<file written by a previous run>); no evidence file is written.
-func replay(path, shm string) {
+func replay(path string) {
+	shm, err0 := os.MkdirTemp("/dev/shm", "verif-c08-")
+	if err0 != nil {
+		fmt.Printf("ENGINE-ERROR: property=C08 %v\n", err0)
+		ev.ExitCode = 2
+		return
+	}
+	defer os.RemoveAll(shm)
 	b, err := os.ReadFile(path)
 	var doc struct {
 		Signature string   `json:"signature"`
@@ -1241,9 +1291,7 @@ func replay(path, shm string) {
 		return
 	}
 	cd := doc.Replay
-	workerDir := filepath.Join(shm, "w0")
-	_ = os.MkdirAll(workerDir, 0o755)
-	r, vs, err := runCase(cd.Backend, workerDir, cd.Mode, cd.Tree, cd.Patterns, op)
+	r, vs, err := runCase(cd.Backend, shm, cd.Mode, cd.Tree, cd.Patterns, op)
 	if err != nil {
 		fmt.Printf("ENGINE-ERROR: property=C08 cannot build the case: %v\n", err)
 		ev.ExitCode = 2
